@@ -274,13 +274,44 @@ def shard_large(ctx, arg):
     which, idx, count = arg
     rng = ctx.rng("graphs-large", which, idx)
     for c in range(count):
-        fam = ["ladder", "chain_back", "diamonds", "sparse", "irreducible"][(c + idx) % 5]
+        fam = ["ladder", "chain_back", "diamonds", "sparse", "irreducible", "wide_switch", "deep_chain"][(c + idx) % 7]
         n = rng.choice([1001, 1024, 1500, 2048, 3000])
-        adj = gen_random(rng, n, fam)
-        catch = [0] * n
-        if rng.random() < 0.3:
+        catch = None
+        if fam == "wide_switch":
+            # a switch with thousands of cases that all lead to one merge block, followed by an if-without-else and a try/catch: 5000+ nodes, 6 blocks deep
+            n = rng.choice([4890, 4900, 4901, 5000, 6000])
+            mrg, a, b, cc, ex = n - 5, n - 4, n - 3, n - 2, n - 1
+            adj = [0] * n
+            for i in range(1, mrg):
+                adj[0] |= 1 << i
+                adj[i] = 1 << mrg
+            adj[mrg] = (1 << a) | (1 << b)
+            adj[a] = (1 << b) | (1 << cc)
+            adj[b] = 1 << cc
+            adj[cc] = 1 << ex
+            catch = [0] * n
+            catch[a] = 1 << cc
+        elif fam == "deep_chain":
+            # a straight-line region of thousands of blocks closed by a back edge from its bottom to its top, a handler in the middle
+            n = rng.choice([2400, 2600, 3000, 3500, 3800])
+            adj = [0] * n
+            for i in range(n - 1):
+                adj[i] = 1 << (i + 1)
+            adj[n - 2] |= 1 << 1
+            mid = n // 2
+            adj[mid] |= 1 << (mid + 5)
+            catch = [0] * n
+            catch[mid] = 1 << (mid + 5)
+        else:
+            adj = gen_random(rng, n, fam)
+        if catch is not None:
+            pass
+        elif rng.random() < 0.3:
+            catch = [0] * n
             for i in range(0, n, 7):
                 catch[i] = adj[i] & -adj[i] if adj[i] else 0
+        else:
+            catch = [0] * n
         ref = None
         if which == "C18":
             ref = G.idoms_big({u: [v for v in range(n) if (adj[u] >> v) & 1] for u in range(n)}, 0)
@@ -588,8 +619,8 @@ def run(ctx, which):
         shards.append(("shard_random", (which, i, per, 300)))
     for i in range(4):
         shards.append(("shard_history", (which, i, 500 if ctx.quick else 20000)))
-    for i in range(2 if ctx.quick else 8):
-        shards.append(("shard_large", (which, i, 3 if ctx.quick else 10)))
+    for i in range(7 if ctx.quick else 14):
+        shards.append(("shard_large", (which, i, 2 if ctx.quick else 14)))     # family = (case + shard) mod 7: every family in both tiers
     import glob
     import os
     from vf.harness import REPO
